@@ -26,6 +26,8 @@ def run(chk):
     chk.attempt(r13h, chk, 'R06.h')
     chk.attempt(r06i, chk)
     chk.attempt(r06j, chk)
+    chk.attempt(r06k, chk)
+    chk.attempt(r06l, chk)
 
 
 def pref_sets(repo):
@@ -146,36 +148,40 @@ def r06f(chk, rid='R06.f'):
     bad = []
     for bname, props in blocks.items():
         empty = PropM(cssText='', name='e', literalname='e', priority='', value='', literalpriority='', wellformed=True, valid=True)
-        items = [Record(value=CommM(cssText='/*c*/')), Record(value=props[0])] + [Record(value=p_) for p_ in props[1:-1]] + [Record(value=UnkM(cssText='@x;')), Record(value=props[-1]), Record(value=empty)]
-        eff = effective(props + [empty])
+        for layout in ('comment first', 'comment and unknown rule last'):
+            if layout == 'comment first':
+                items = [Record(value=CommM(cssText='/*c*/')), Record(value=props[0])] + [Record(value=p_) for p_ in props[1:-1]] + [Record(value=UnkM(cssText='@x;')), Record(value=props[-1]), Record(value=empty)]
+            else:
+                items = [Record(value=p_) for p_ in props] + [Record(value=empty), Record(value=UnkM(cssText='@x;')), Record(value=CommM(cssText='/*c*/'))]
+            eff = effective(props + [empty])
 
-        def get_properties(name=None, all=False, props=props, empty=empty, eff=eff):  # noqa: A002
-            sel = (props + [empty]) if all else eff
-            return [p_ for p_ in sel if name is None or p_.name == name]
+            def get_properties(name=None, all=False, props=props, empty=empty, eff=eff):  # noqa: A002
+                sel = (props + [empty]) if all else eff
+                return [p_ for p_ in sel if name is None or p_.name == name]
 
-        style = Record(seq=items, getProperties=get_properties, getProperty=lambda name, eff=eff: ([p_ for p_ in eff if p_.name == name] or [None])[0])
-        for keepall, keepc, keepu, omitlast, omit in itertools.product((True, False), repeat=5):
-            prefs = Record(keepAllProperties=keepall, keepComments=keepc, keepUnknownAtRules=keepu, omitLastSemicolon=omitlast, lineSeparator='\n')
-            intr = {'cssutils': Record(css=Record(Property=PropM, CSSComment=CommM, CSSUnknownRule=UnkM))}
-            got = Evaluator(fn, intrinsics=intr, module=m, cls='CSSSerializer', model_types=(PropM, CommM, UnkM)).run(self=Record(prefs=prefs), style=style, separator=None, omit=omit)
-            n += 1
-            label = f'{bname}: keepAllProperties={keepall} keepComments={keepc} keepUnknownAtRules={keepu} omitLastSemicolon={omitlast} omit={omit}'
-            if isinstance(got, Raised) or not isinstance(got, str):
-                bad.append(f'{label}: {got!r}')
-                continue
-            lines = [x for x in got.split('\n') if x]
-            written = [x.rstrip(';') for x in lines if x[:2] in ('a:', 'b:')]
-            want = [p_.cssText for p_ in (props if keepall else eff) if p_.cssText]
-            probs = []
-            if written != want:
-                probs.append(f'declarations {written}, prescribed {want}')
-            if ('/*c*/' in lines) != keepc:
-                probs.append('comment ' + ('dropped' if keepc else 'kept'))
-            unterminated = [x for x in lines[:-1] if x[:2] in ('a:', 'b:') and not x.endswith(';')]
-            if unterminated:
-                probs.append(f'no semicolon after {unterminated}')
-            if probs:
-                bad.append(f'{label}: ' + '; '.join(probs))
+            style = Record(seq=items, getProperties=get_properties, getProperty=lambda name, eff=eff: ([p_ for p_ in eff if p_.name == name] or [None])[0])
+            for keepall, keepc, keepu, omitlast, omit in itertools.product((True, False), repeat=5):
+                prefs = Record(keepAllProperties=keepall, keepComments=keepc, keepUnknownAtRules=keepu, omitLastSemicolon=omitlast, lineSeparator='\n')
+                intr = {'cssutils': Record(css=Record(Property=PropM, CSSComment=CommM, CSSUnknownRule=UnkM))}
+                got = Evaluator(fn, intrinsics=intr, module=m, cls='CSSSerializer', model_types=(PropM, CommM, UnkM)).run(self=Record(prefs=prefs), style=style, separator=None, omit=omit)
+                n += 1
+                label = f'{bname} ({layout}): keepAllProperties={keepall} keepComments={keepc} keepUnknownAtRules={keepu} omitLastSemicolon={omitlast} omit={omit}'
+                if isinstance(got, Raised) or not isinstance(got, str):
+                    bad.append(f'{label}: {got!r}')
+                    continue
+                lines = [x for x in got.split('\n') if x]
+                written = [x.rstrip(';') for x in lines if x[:2] in ('a:', 'b:')]
+                want = [p_.cssText for p_ in (props if keepall else eff) if p_.cssText]
+                probs = []
+                if written != want:
+                    probs.append(f'declarations {written}, prescribed {want}')
+                if ('/*c*/' in lines) != keepc:
+                    probs.append('comment ' + ('dropped' if keepc else 'kept'))
+                unterminated = [x for x in lines[:-1] if x[:2] in ('a:', 'b:') and not x.endswith(';')]
+                if unterminated:
+                    probs.append(f'no semicolon after {unterminated}')
+                if probs:
+                    bad.append(f'{label}: ' + '; '.join(probs))
     chk.extra['declaration_preference_cases'] = n
     chk.ob(rid, SER, 'CSSSerializer.do_css_CSSStyleDeclaration', f'all {n} preference combinations select and separate the declarations as documented', not bad, f'{len(bad)} combinations differ, e.g. ' + ' | '.join(bad[:2]))
 
@@ -332,3 +338,66 @@ def r06j(chk, rid='R06.j'):
             want = ' '.join(want).replace('( color )', '(color)').split()
             ok = words is not None and ' '.join(words).replace('( ', '(').replace(' )', ')').split() == want
             chk.ob(rid, SER, 'CSSSerializer.do_stylesheets_mediaquery', f'comment {label}, keepComments={keep}: the query is written as `{" ".join(want)}` (white space aside)', ok, f'written as {got!r}: dropping the comment joins or loses the words around it')
+
+
+def r06k(chk, rid='R06.k'):
+    chk.rule(rid, 'the white space around the operators of calc() carries meaning and survives every spacer setting, decided by evaluation: CSSSerializer.do_css_CSSCalc, writing through the source\'s own Out class, is evaluated for calc(1px + 2px), calc(1px - 2px), calc(1px * 2) and calc(1px / 2) under an empty and a one-space spacer: `+` and `-` are written with white space on both sides (without it the reader takes the sign for part of the number and the declaration is lost), the operands and operators are all there, in order')
+    from sa.absint import Evaluator, Raised, Record
+
+    m = chk.repo.mod(SER)
+    fn = m.get('CSSSerializer.do_css_CSSCalc')
+
+    class ValueM(Record):
+        @property
+        def cssText(self):
+            return self.text_
+
+    class CommentM(Record):
+        pass
+
+    for op in '+-*/':
+        for spacer in ('', ' '):
+            prefs = Record(spacer=spacer, selectorCombinatorSpacer=spacer, keepComments=True, indentClosingBrace=False, listItemSpacer=spacer, propertyNameSpacer=spacer, paranthesisSpacer=spacer, lineSeparator='\n', minimizeColorHash=True)
+            ser = Record(prefs=prefs, _level=0)
+            items = [Record(type='FUNCTION', value='calc('), Record(type='DIMENSION', value=ValueM(text_='1px')), Record(type='CHAR', value=op), Record(type='DIMENSION', value=ValueM(text_='2px')), Record(type='CHAR', value=')')]
+            got = Evaluator(fn, intrinsics={'Out': lambda s: out_model(chk, s), 'cssutils': Record(css=Record(CSSComment=CommentM))}, module=m, cls='CSSSerializer', model_types=(ValueM,)).run(self=ser, cssvalue=Record(seq=items), valuesOnly=False)
+            ok = isinstance(got, str) and got.replace(' ', '') == f'calc(1px{op}2px)' and (op in '*/' or f'1px {op} 2px' in got)
+            chk.ob(rid, SER, 'CSSSerializer.do_css_CSSCalc', f'calc(1px {op} 2px) with spacer {spacer!r} keeps its operands' + (' and the white space around the operator' if op in '+-' else ''), ok,
+                   f'written as {got!r}: under the minified preferences the expression no longer parses as calc() and the declaration is lost on reparse')
+
+
+def default_prefs(chk):
+    """A preferences object with every preference at its default: Preferences.useDefaults, evaluated."""
+    from sa.absint import Evaluator, Raised, Record
+
+    m = chk.repo.mod(SER)
+    p = Record()
+    r = Evaluator(m.get('Preferences.useDefaults'), module=m, cls='Preferences').run(self=p)
+    if isinstance(r, Raised):
+        raise AnalysisError(f'Preferences.useDefaults: {r!r}')
+    return p
+
+
+def r06l(chk, rid='R06.l'):
+    chk.rule(rid, 'the spelling preferences of a declaration change spelling only, decided by evaluation: CSSSerializer.do_Property (with _propertyname and _valid resolved in the class) is evaluated for a declaration with comments inside its name part and inside its priority, written in upper case, under every combination of defaultPropertyName and defaultPropertyPriority: the comments, the value and the order of the parts are the same in all four; only the name and the priority word switch between the normalised and the literal spelling')
+    import itertools
+
+    from sa.absint import Evaluator, Raised, Record
+
+    m = chk.repo.mod(SER)
+    fn = m.get('CSSSerializer.do_Property')
+
+    class CommentM(Record):
+        @property
+        def cssText(self):
+            return self.text_
+
+    c1, c2 = CommentM(text_='/*n*/'), CommentM(text_='/*why*/')
+    prop = Record(seqs=[['COLOR', c1], Record(cssText='red'), ['!', c2, 'IMPORTANT']], wellformed=True, valid=True, literalname='COLOR', name='color', literalpriority='IMPORTANT', priority='important', _mediaQuery=False, parent=None)
+    for dname, dprio in itertools.product((True, False), repeat=2):
+        prefs = default_prefs(chk)
+        prefs.defaultPropertyName, prefs.defaultPropertyPriority = dname, dprio
+        got = Evaluator(fn, module=m, cls='CSSSerializer', model_types=(CommentM,)).run(self=Record(prefs=prefs), property=prop)
+        want = 'color/*n*/: red !/*why*/' + ('important' if dprio else 'IMPORTANT')
+        ok = isinstance(got, str) and got.replace('COLOR', 'color', 1) == want  # which spelling of the name is written also depends on keepAllProperties
+        chk.ob(rid, SER, 'CSSSerializer.do_Property', f'defaultPropertyName={dname}, defaultPropertyPriority={dprio}: the declaration is written as `{want}` (name in either spelling)', ok, f'written as {got!r}: a comment or part of the declaration depends on a spelling preference')
